@@ -152,6 +152,42 @@ def _worker(arg):
                 ba[i] ^= (1 << bit)
         for cut in (positions if shard is not None else range(0, len(raw))):
             offer(raw[:cut], 'truncate to %d bytes' % cut, 'trunc')
+        # the shipped configuration has a checkpoint horizon (163,000); here a scaled one: the horizon AT THE PARENT'S HEIGHT, so
+        # this block is the first one above it and full validation is due exactly as before.  Every flip of the header region
+        # (the fields only the in-chain checks look at: time, target, nonce, the three evidence fields) and of the first
+        # bytes of the transaction list is offered again in that configuration.
+        if shard is None and node.parent is not None and node.height >= 2:
+            from skepticoin import consensus
+            saved = consensus.MAX_KNOWN_HASH_HEIGHT
+            consensus.MAX_KNOWN_HASH_HEIGHT = node.height - 1
+            try:
+                try:
+                    cs.add_block(Block.deserialize(raw), now)
+                    ok = True
+                except Exception:
+                    ok = False
+                if ok:
+                    st['horizon_controls_accepted'] += 1
+                    for i in range(min(len(raw), hdr_len + 24)):
+                        for bit in range(8):
+                            ba[i] ^= (1 << bit)
+                            st['mutants'] += 1
+                            st['mutants_just_above_a_horizon'] += 1
+                            try:
+                                b = Block.deserialize(bytes(ba))
+                                st['decoded'] += 1
+                                cs.add_block(b, now)
+                                st['accepted'] += 1
+                                if len(bad) < 5:
+                                    desc = 'flip bit %d of byte %d' % (bit, i)
+                                    bad.append(('mutant-accepted-just-above-horizon', "block %s (%d bytes, height %d) with the checkpoint "
+                                                "horizon at height %d: %s gives another acceptable block" % (
+                                                    '/'.join(p), len(raw), node.height, node.height - 1, desc), kind, p, desc))
+                            except Exception:
+                                pass
+                            ba[i] ^= (1 << bit)
+            finally:
+                consensus.MAX_KNOWN_HASH_HEIGHT = saved
     return st, bad, rules
 
 
@@ -190,7 +226,7 @@ def run(ctx):
                                                                               '... every bit of every byte ...', 'truncate to 0 bytes',
                                                                               '... every proper prefix ...']} for j in jobs[:2]],
         'exhaustive': True, 'blocks': nblocks, 'controls_accepted': st['controls_accepted'],
-        'controls_rejected': st['controls_rejected'], 'controls_own_assembly': st['controls_own_assembly'], 'undecodable': st['undecodable'], 'accepted': st['accepted'],
+        'controls_rejected': st['controls_rejected'], 'controls_own_assembly': st['controls_own_assembly'], 'undecodable': st['undecodable'], 'accepted': st['accepted'], 'mutants_just_above_a_horizon': st['mutants_just_above_a_horizon'],
         'rejecting_rule_histogram': dict(rules.most_common(40)),
         'vacuous': st['controls_accepted'] + st['controls_own_assembly'] == 0,
     })
